@@ -11,6 +11,7 @@ mkdir -p "$dst"
 cp "$src/$rn/patch.diff" "$dst/patch.diff" || exit 1
 cp "$src/$rn/meta.json" "$dst/meta.agent.json"
 demo=$(ls "$src"/demo_*.py | head -1)
+cp "$demo" "$dst/$(basename "$demo")"       # kept so that the patch can be re-confirmed after a later change to /repo
 wt=/tmp/confirmR_$name
 rm -rf "$wt"; git -C /repo worktree prune
 git -C /repo worktree add -q --detach "$wt" HEAD || exit 1
